@@ -42,7 +42,7 @@ def main():
     os.makedirs(S+'/verif/replays',exist_ok=True); os.makedirs(S+'/verif/evidence',exist_ok=True)
     sh(['sed','-i','s#/repo/src/lib.rs#%s/repo/src/lib.rs#'%S,S+'/verif/shadow/Cargo.toml'])
     sh(['sed','-i','s#path = "/repo"#path = "%s/repo"#'%S,S+'/verif/miri-harness/Cargo.toml'])
-    env=dict(os.environ,CARGO_TARGET_DIR=S+'/target',CARGO_NET_OFFLINE='true',DST_VERIF_DIR=S+'/verif',DST_RUNS=os.environ.get('MUT_RUNS','5000'),DST_CHILD_TIMEOUT_MS='8000')
+    env=dict(os.environ,CARGO_TARGET_DIR=S+'/target',CARGO_NET_OFFLINE='true',DST_VERIF_DIR=S+'/verif',DST_RUNS=os.environ.get('MUT_RUNS','5000'),DST_CHILD_TIMEOUT_MS='8000',DST_NO_DEFAULT_FEATURES_STAGE='1')
     rc,out=sh(['cargo','build','--release','--offline','-p','dst'],cwd=S+'/verif',env=env)
     assert rc==0,out[-2000:]
     sh(['cargo','test','--offline','--lib','--no-run'],cwd=S+'/repo',env=dict(os.environ,CARGO_TARGET_DIR=S+'/rtarget',CARGO_NET_OFFLINE='true'))
